@@ -8,6 +8,8 @@ import (
 	"fmt"
 	"os"
 	"regexp"
+	"strconv"
+	"strings"
 
 	"golang.org/x/term"
 
@@ -47,7 +49,16 @@ func (r *Runner) bashTest(ctx context.Context, expr syntax.TestExpr, classic boo
 			}
 			return ""
 		}
-		if r.binTest(ctx, x.Op, r.bashTest(ctx, x.X, classic), r.bashTest(ctx, x.Y, classic)) {
+		xs, ys := r.bashTest(ctx, x.X, classic), r.bashTest(ctx, x.Y, classic)
+		if !classic {
+			switch x.Op {
+			case syntax.TsEql, syntax.TsNeq, syntax.TsLeq, syntax.TsGeq, syntax.TsLss, syntax.TsGtr:
+				// Inside [[ ]], the operands of the numeric operators
+				// are arithmetic expressions, as in [[ x -eq 1+2 ]].
+				xs, ys = r.testArithm(xs), r.testArithm(ys)
+			}
+		}
+		if r.binTest(ctx, x.Op, xs, ys) {
 			return "1"
 		}
 		return ""
@@ -58,6 +69,16 @@ func (r *Runner) bashTest(ctx context.Context, expr syntax.TestExpr, classic boo
 		return ""
 	}
 	return ""
+}
+
+// testArithm evaluates s as an arithmetic expression and returns its value
+// as a string; a string which is not an expression is returned as is.
+func (r *Runner) testArithm(s string) string {
+	expr, err := syntax.NewParser().Arithmetic(strings.NewReader(s))
+	if err != nil || expr == nil {
+		return s
+	}
+	return strconv.Itoa(r.arithm(expr))
 }
 
 func (r *Runner) binTest(ctx context.Context, op syntax.BinTestOperator, x, y string) bool {
